@@ -11,7 +11,12 @@ package remote
 //   op line:  C05 hist <cfg> <dom0> <dom1> <msgs>
 //     cfg  = <mtasts><preload><dane><dnssec>.<local: - | <minTLS><minMX>>.<override><relaxed>.<reuseLimit>
 //     dom  = <mxAD><sts a|n|t|e>:<mx>[;<mx>]     (MX candidates in preference order)
-//     mx   = <srv>.<up>.<starttls o|s|h|c>.<cert v|u|w>.<stsMatch>.<aAD>.<tlsaAD>.<tlsa n|e|t|m|u|f>.<reqtls>.<slow TLSA answer>
+//     mx   = <srv>.<up>.<starttls o|s|h|c>.<cert v|u|w>.<stsMatch>.<aAD>.<tlsaAD>.<tlsa n|e|t|m|u|f>.<reqtls>.<slow TLSA answer>[.<alias>]
+//     alias = <s|i><tlsa at the initial name n|e|t|m|u|f><its AD bit><CNAME-type query fails>
+//            the MX host name is a CNAME (s: signed CNAME RRset, i: unsigned) to a canonical name; aAD/tlsaAD/tlsa
+//            then describe the canonical name (address RRset, TLSA RRset), the alias field the TLSA RRset published
+//            at _25._tcp.<MX name> itself.  The AD bit of the canonical TLSA answer is aAD && tlsaAD (an RRset below an
+//            unsigned name is never reported authenticated).
 //     msgs = <msg>[/<msg>…]   msg = <requireTLS><tlsRequiredNo><quarantine 0|1|2>:<dom>[,<dom>…]
 //
 //   observation (one line): per message  r:<dom>=<ok|temp|perm>,… d:<srv>.<tls>.<requiretls param>.<reused>,…
@@ -67,7 +72,13 @@ type c05MX struct {
 	tlsaAD   bool // AD on the TLSA lookup
 	tlsa     byte // n none, e EE matching, t TA matching, m mismatching, u unusable only, f SERVFAIL
 	reqtls   bool // server implements REQUIRETLS
-	slow     bool // the TLSA answer for this host is delayed (fault sequence: lookup latency)
+	slow     bool // the TLSA answers for this host are delayed (fault sequence: lookup latency)
+	// the MX host name is an alias (CNAME): 0 no, 's' the CNAME RRset is DNSSEC-signed, 'i' it is not.
+	// With an alias aAD / tlsaAD / tlsa describe the canonical name and the next three fields the initial name.
+	alias    byte
+	tlsaI    byte // TLSA RRset at _25._tcp.<MX name>: n none (NXDOMAIN), e, t, m, u, f as for tlsa
+	tlsaIAD  bool // AD on that lookup
+	cnameErr bool // the CNAME-type query for the MX name fails (SERVFAIL)
 }
 
 type c05Dom struct {
@@ -104,7 +115,11 @@ func c05b(b bool) string {
 }
 
 func (m c05MX) String() string {
-	return fmt.Sprintf("%d.%s.%c.%c.%s.%s.%s.%c.%s.%s", m.srv, c05b(m.up), m.starttls, m.cert, c05b(m.stsMatch), c05b(m.aAD), c05b(m.tlsaAD), m.tlsa, c05b(m.reqtls), c05b(m.slow))
+	s := fmt.Sprintf("%d.%s.%c.%c.%s.%s.%s.%c.%s.%s", m.srv, c05b(m.up), m.starttls, m.cert, c05b(m.stsMatch), c05b(m.aAD), c05b(m.tlsaAD), m.tlsa, c05b(m.reqtls), c05b(m.slow))
+	if m.alias != 0 {
+		s += fmt.Sprintf(".%c%c%s%s", m.alias, m.tlsaI, c05b(m.tlsaIAD), c05b(m.cnameErr))
+	}
+	return s
 }
 
 func (d c05Dom) String() string {
@@ -141,15 +156,23 @@ func (h c05Hist) Op() string {
 
 func c05ParseMX(s string) (c05MX, error) {
 	f := strings.Split(s, ".")
-	if len(f) != 10 || len(f[2]) != 1 || len(f[3]) != 1 || len(f[7]) != 1 {
+	if (len(f) != 10 && len(f) != 11) || len(f[2]) != 1 || len(f[3]) != 1 || len(f[7]) != 1 {
 		return c05MX{}, errors.New("bad mx " + s)
 	}
 	srv, err := strconv.Atoi(f[0])
 	if err != nil {
 		return c05MX{}, err
 	}
-	return c05MX{srv: srv, up: f[1] == "1", starttls: f[2][0], cert: f[3][0], stsMatch: f[4] == "1", aAD: f[5] == "1",
-		tlsaAD: f[6] == "1", tlsa: f[7][0], reqtls: f[8] == "1", slow: f[9] == "1"}, nil
+	m := c05MX{srv: srv, up: f[1] == "1", starttls: f[2][0], cert: f[3][0], stsMatch: f[4] == "1", aAD: f[5] == "1",
+		tlsaAD: f[6] == "1", tlsa: f[7][0], reqtls: f[8] == "1", slow: f[9] == "1"}
+	if len(f) == 11 {
+		a := f[10]
+		if len(a) != 4 || (a[0] != 's' && a[0] != 'i') || !strings.ContainsRune("netmuf", rune(a[1])) {
+			return c05MX{}, errors.New("bad alias " + s)
+		}
+		m.alias, m.tlsaI, m.tlsaIAD, m.cnameErr = a[0], a[1], a[2] == '1', a[3] == '1'
+	}
+	return m, nil
 }
 
 func c05ParseDom(s string) (c05Dom, error) {
@@ -416,6 +439,40 @@ func c05MXHost(m c05MX) string {
 	return fmt.Sprintf("mx%d.d0.invalid.", m.srv)
 }
 
+// the canonical name an aliased MX host name points to (outside the names the certificates cover:
+// the name that is verified is the MX name)
+func c05CanonHost(m c05MX) string {
+	return fmt.Sprintf("h%d.canon.invalid.", m.srv)
+}
+
+// the names TLSA records can be published at for this MX, in the order RFC 7672 prefers them
+func c05TLSANames(m c05MX) []string {
+	if m.alias != 0 {
+		return []string{"_25._tcp." + c05CanonHost(m), "_25._tcp." + c05MXHost(m)}
+	}
+	return []string{"_25._tcp." + c05MXHost(m)}
+}
+
+// c05TLSAZone publishes an RRset of the given kind (relative to the certificate the server presents) at tn.
+func c05TLSAZone(z map[string]mockdns.Zone, pki *c05PKI, tn string, kind, cert byte, ad bool) {
+	rec := func(usage, sel, mt uint8, data string) map[miekgdns.Type][]miekgdns.RR {
+		return tlsaRecord(tn, usage, mt, sel, data)
+	}
+	switch kind {
+	case 'e':
+		z[tn] = mockdns.Zone{AD: ad, Misc: rec(3, 1, 1, c05SPKIHash(pki.leaf[cert]))}
+	case 't':
+		z[tn] = mockdns.Zone{AD: ad, Misc: rec(2, 1, 1, c05SPKIHash(pki.ca[cert]))}
+	case 'm':
+		z[tn] = mockdns.Zone{AD: ad, Misc: rec(3, 1, 1, strings.Repeat("ab", 32))}
+	case 'u':
+		z[tn] = mockdns.Zone{AD: ad, Misc: rec(1, 1, 1, c05SPKIHash(pki.leaf[cert]))}
+	case 'f':
+		z[tn] = mockdns.Zone{AD: ad, Err: &net.DNSError{Err: "scripted failure"}}
+	}
+	// 'n': no such name (NXDOMAIN)
+}
+
 func c05Zones(h c05Hist, pki *c05PKI) map[string]mockdns.Zone {
 	z := map[string]mockdns.Zone{}
 	for di, d := range h.doms {
@@ -427,23 +484,18 @@ func c05Zones(h c05Hist, pki *c05PKI) map[string]mockdns.Zone {
 			if !m.up {
 				a = fmt.Sprintf("127.0.0.%d", 10+m.srv) // nothing listens there
 			}
-			z[host] = mockdns.Zone{AD: m.aAD, A: []string{a}}
-			tn := "_25._tcp." + host
-			rec := func(usage, sel, mt uint8, data string) map[miekgdns.Type][]miekgdns.RR {
-				return tlsaRecord(tn, usage, mt, sel, data)
+			if m.alias == 0 {
+				z[host] = mockdns.Zone{AD: m.aAD, A: []string{a}}
+				c05TLSAZone(z, pki, "_25._tcp."+host, m.tlsa, m.cert, m.tlsaAD)
+				continue
 			}
-			switch m.tlsa {
-			case 'e':
-				z[tn] = mockdns.Zone{AD: m.tlsaAD, Misc: rec(3, 1, 1, c05SPKIHash(pki.leaf[m.cert]))}
-			case 't':
-				z[tn] = mockdns.Zone{AD: m.tlsaAD, Misc: rec(2, 1, 1, c05SPKIHash(pki.ca[m.cert]))}
-			case 'm':
-				z[tn] = mockdns.Zone{AD: m.tlsaAD, Misc: rec(3, 1, 1, strings.Repeat("ab", 32))}
-			case 'u':
-				z[tn] = mockdns.Zone{AD: m.tlsaAD, Misc: rec(1, 1, 1, c05SPKIHash(pki.leaf[m.cert]))}
-			case 'f':
-				z[tn] = mockdns.Zone{AD: m.tlsaAD, Err: &net.DNSError{Err: "scripted failure"}}
-			}
+			// alias: the address answer carries AD only if the CNAME RRset AND the address RRset are
+			// signed (mockdns conjoins along the chain); the CNAME-type query reports the alias zone alone
+			canon := c05CanonHost(m)
+			z[host] = mockdns.Zone{AD: m.alias == 's', CNAME: canon}
+			z[canon] = mockdns.Zone{AD: m.aAD, A: []string{a}}
+			c05TLSAZone(z, pki, "_25._tcp."+canon, m.tlsa, m.cert, m.aAD && m.tlsaAD)
+			c05TLSAZone(z, pki, "_25._tcp."+host, m.tlsaI, m.cert, m.tlsaIAD)
 		}
 		z[fmt.Sprintf("d%d.invalid.", di)] = mockdns.Zone{AD: d.mxAD, MX: mxs}
 	}
@@ -487,20 +539,26 @@ func c05Setup(t *testing.T, h c05Hist, pki *c05PKI, rng *vh.Rng, verbose bool) *
 		tgt.Log = c05Quiet
 	}
 	slow := map[string]bool{}
+	failCNAME := map[string]bool{}
 	for _, d := range h.doms {
 		for _, m := range d.mxs {
 			if m.slow {
-				slow["_25._tcp."+c05MXHost(m)] = true
+				for _, tn := range c05TLSANames(m) {
+					slow[tn] = true
+				}
+			}
+			if m.alias != 0 && m.cnameErr {
+				failCNAME[c05MXHost(m)] = true
 			}
 		}
 	}
-	if len(slow) > 0 {
+	if len(slow) > 0 || len(failCNAME) > 0 {
 		pc, err := net.ListenPacket("udp4", "127.0.0.1:0")
 		if err != nil {
 			t.Fatal(err)
 		}
 		started := make(chan struct{})
-		env.dnsFront = &miekgdns.Server{PacketConn: pc, Handler: c05SlowDNS{inner: dnsSrv, slow: slow}, NotifyStartedFunc: func() { close(started) }}
+		env.dnsFront = &miekgdns.Server{PacketConn: pc, Handler: c05SlowDNS{inner: dnsSrv, slow: slow, failCNAME: failCNAME}, NotifyStartedFunc: func() { close(started) }}
 		go env.dnsFront.ActivateAndServe()
 		<-started
 		tgt.extResolver.Cfg.Port = strconv.Itoa(pc.LocalAddr().(*net.UDPAddr).Port)
@@ -628,13 +686,24 @@ func (c05NopLog) Println(...interface{})        {}
 const c05SlowDelay = 60 * time.Millisecond
 
 type c05SlowDNS struct {
-	inner miekgdns.Handler
-	slow  map[string]bool
+	inner     miekgdns.Handler
+	slow      map[string]bool // TLSA owner names whose answers are delayed
+	failCNAME map[string]bool // names whose CNAME-type query is answered SERVFAIL
 }
 
 func (h c05SlowDNS) ServeDNS(w miekgdns.ResponseWriter, m *miekgdns.Msg) {
-	if len(m.Question) == 1 && m.Question[0].Qtype == miekgdns.TypeTLSA && h.slow[strings.ToLower(m.Question[0].Name)] {
-		time.Sleep(c05SlowDelay)
+	if len(m.Question) == 1 {
+		q := m.Question[0]
+		name := strings.ToLower(q.Name)
+		if q.Qtype == miekgdns.TypeTLSA && h.slow[name] {
+			time.Sleep(c05SlowDelay)
+		}
+		if q.Qtype == miekgdns.TypeCNAME && h.failCNAME[name] {
+			reply := new(miekgdns.Msg)
+			reply.SetRcode(m, miekgdns.RcodeServerFailure)
+			w.WriteMsg(reply)
+			return
+		}
 	}
 	h.inner.ServeDNS(w, m)
 }
@@ -768,31 +837,66 @@ func c05FindMX(h c05Hist, srv int) (int, c05MX) {
 	panic("unknown server")
 }
 
-// TLSA discovery as RFC 7672 describes it, from the scripted zone contents:
-// "none" (nothing usable is published / nothing authenticated), "fail" (lookup failure),
-// "usable" (authenticated RRset with a usable DANE-EE/DANE-TA record), "unusable"
-// (authenticated non-empty RRset without any usable record).
-func c05Discovery(m c05MX) string {
-	if !m.aAD {
-		return "none" // the host's address records are not secure: no TLSA lookup
+// TLSA discovery as RFC 7672 §2.2 describes it, from the scripted zone contents.  The first result is
+// "none" (DANE does not apply: nothing published / nothing authenticated), "fail" (a lookup needed to decide
+// failed), "usable" (the governing RRset is authenticated and has a usable DANE-EE/DANE-TA record) or
+// "unusable" (authenticated non-empty RRset without any usable record); the second is the kind of the
+// GOVERNING RRset (relative to the certificate the server presents), 0 if there is none.
+//
+//   - MX name is not an alias: insecure address records ⇒ no TLSA lookup; otherwise _25._tcp.<MX name>.
+//   - alias, CNAME RRset and address RRset secure ("secure CNAME", §2.2.2): the canonical name is the
+//     preferred TLSA base domain; only when no secure TLSA records are found there the initial name is
+//     tried.  A lookup failure at ANY name consulted is a discovery failure.
+//   - alias, CNAME RRset secure, continuation insecure ("insecure CNAME"): the initial name only.
+//   - CNAME RRset at the MX name insecure: DANE does not apply.
+//     In the last two cases the security status of the CNAME RRset has to be asked for separately (the
+//     address answer is unauthenticated as a whole); if that query fails the discovery has failed.
+func c05Governing(m c05MX) (string, byte) {
+	atBase := func(kind byte, ad bool) (string, byte) {
+		switch {
+		case kind == 'f':
+			return "fail", 0
+		case kind == 'n' || !ad:
+			return "none", 0
+		case kind == 'u':
+			return "unusable", kind
+		}
+		return "usable", kind
 	}
-	switch m.tlsa {
-	case 'n':
-		return "none"
-	case 'f':
-		return "fail"
+	switch m.alias {
+	case 0:
+		if !m.aAD {
+			return "none", 0 // the host's address records are not secure: no TLSA lookup
+		}
+		return atBase(m.tlsa, m.tlsaAD)
+	case 's':
+		if m.aAD {
+			if st, k := atBase(m.tlsa, m.aAD && m.tlsaAD); st != "none" {
+				return st, k
+			}
+			return atBase(m.tlsaI, m.tlsaIAD)
+		}
+		if m.cnameErr {
+			return "fail", 0
+		}
+		return atBase(m.tlsaI, m.tlsaIAD)
+	default: // 'i'
+		if m.cnameErr {
+			return "fail", 0
+		}
+		return "none", 0
 	}
-	if !m.tlsaAD {
-		return "none"
-	}
-	if m.tlsa == 'u' {
-		return "unusable"
-	}
-	return "usable"
 }
 
+func c05Discovery(m c05MX) string {
+	st, _ := c05Governing(m)
+	return st
+}
+
+// does the governing RRset authenticate the certificate the server presents?
 func c05DaneMatches(m c05MX) bool {
-	switch m.tlsa {
+	_, kind := c05Governing(m)
+	switch kind {
 	case 'e':
 		return true // DANE-EE: name and issuer are irrelevant
 	case 't':
@@ -971,7 +1075,7 @@ func c05GenMX(r *vh.Rng, srv int) c05MX {
 		}
 		return s[0]
 	}
-	return c05MX{
+	m := c05MX{
 		srv:      srv,
 		up:       !r.Chance(8),
 		starttls: pickB("oshc", 60, 15, 15, 10),
@@ -983,6 +1087,25 @@ func c05GenMX(r *vh.Rng, srv int) c05MX {
 		reqtls:   r.Chance(60),
 		slow:     r.Chance(4),
 	}
+	// the MX name is an alias: signed / unsigned CNAME RRset, an independent TLSA outcome at the initial
+	// name, the canonical name more often in a signed zone (both base domains are then consulted)
+	if r.Chance(35) {
+		m.alias = pickB("si", 75, 25)
+		m.tlsaI = pickB("netmuf", 30, 18, 12, 12, 8, 20)
+		m.tlsaIAD = r.Chance(75)
+		m.cnameErr = r.Chance(12)
+		if r.Chance(50) {
+			m.aAD = true
+		}
+		if r.Chance(35) { // nothing (authenticated) at the canonical name: the initial name decides
+			if r.Chance(50) {
+				m.tlsa = 'n'
+			} else {
+				m.tlsaAD = false
+			}
+		}
+	}
+	return m
 }
 
 func c05GenHist(r *vh.Rng) c05Hist {
@@ -1019,6 +1142,10 @@ func c05GenHist(r *vh.Rng) c05Hist {
 				if m.tlsa == 'f' || m.tlsa == 'm' {
 					m.tlsa = 'n'
 				}
+				if m.tlsaI == 'f' || m.tlsaI == 'm' {
+					m.tlsaI = 'n'
+				}
+				m.cnameErr = false
 				m.stsMatch = true
 			}
 		}
@@ -1104,6 +1231,12 @@ func c05SystematicBases() []c05Hist {
 		c05MustParse("C05 hist 1010.10.11.1 0e:2.1.o.v.0.1.1.n.0.0;1.1.o.v.1.1.1.f.0.0 0e:3.1.o.v.1.1.1.e.1.0 000:0"),
 		// relaxed REQUIRETLS, MX without the extension, second domain plaintext
 		c05MustParse("C05 hist 1000.-.11.10 0t:1.1.o.v.1.0.0.n.0.0 0t:3.1.s.v.1.0.0.n.0.0 000:0"),
+		// DANE, aliased MXs: lookup failure at the canonical name (nothing at the initial one) / self-signed server
+		// authenticated by the records at the canonical name
+		c05MustParse("C05 hist 0010.20.10.10 0a:1.1.o.v.0.1.1.f.0.0.sn10 0a:3.1.o.u.0.1.1.e.0.0.sm10 000:0"),
+		// DANE, aliased MXs: lookup failure at the initial name after an unsigned answer at the canonical one / alias
+		// into an unsigned zone, records at the initial name
+		c05MustParse("C05 hist 0010.20.10.10 0a:1.1.o.v.0.1.0.e.0.0.sf10 0a:3.1.o.u.0.0.0.n.0.0.st10 000:0"),
 	}
 }
 
@@ -1127,6 +1260,29 @@ func c05FixedOps() []string {
 		// permanent refusal of the second one (not listed in the enforced MTA-STS policy)
 		"C05 hist 1010.-.10.10 0e:1.1.o.v.1.1.1.f.0.0;2.1.o.v.0.1.1.n.0.0 0a:3.1.o.v.0.1.1.n.0.0 000:0",
 		"C05 hist 1000.-.10.10 0e:1.0.o.v.1.1.1.n.0.0;2.1.o.v.0.1.1.n.0.0 0a:3.1.o.v.0.1.1.n.0.0 000:0",
+		// nothing of the attempt for one candidate may leak into the attempt for the next one: two candidates with
+		// certificates that do not verify (unknown issuer / wrong name), authenticated TLS required (local policy / REQUIRETLS)
+		"C05 hist 0000.20.10.10 0a:1.1.o.u.0.0.0.n.0.0;2.1.o.u.0.0.0.n.0.0 0a:3.1.o.v.0.0.0.n.0.0 000:0",
+		"C05 hist 0001.-.10.10 1a:1.1.o.w.0.0.0.n.1.0;2.1.o.u.0.0.0.n.1.0 0a:3.1.o.v.0.0.0.n.0.0 100:0",
+		// the MX name is a signed alias (RFC 7672 §2.2.2).  A TLSA lookup failure at a name that is consulted defers:
+		// at the canonical name (nothing published at the initial name) — with a PKIX-valid server, a second
+		// candidate, the TLS-Required: No message first, REQUIRETLS
+		"C05 hist 0010.-.10.10 0a:1.1.o.v.0.1.1.f.0.0.sn10 0a:3.1.o.v.0.1.1.n.0.0 000:0",
+		"C05 hist 0010.-.10.10 0a:1.1.o.v.0.1.1.f.0.0.sn00 0a:3.1.o.v.0.1.1.n.0.0 000:0,1",
+		"C05 hist 1011.10.10.10 1t:1.1.o.v.1.1.1.f.1.0.se10;2.1.o.v.0.1.0.n.1.0.sf10 1a:3.1.o.v.0.1.1.n.0.0 000:0/100:0",
+		"C05 hist 0010.-.10.10 0a:1.1.o.v.0.1.1.f.0.0.sn10 0a:3.1.o.v.0.1.1.f.0.0.sn10 010:0,1/000:1,0",
+		// … at the initial name, when the canonical name has nothing / nothing authenticated
+		"C05 hist 0010.-.10.10 0a:1.1.o.v.0.1.1.n.0.0.sf10 0a:3.1.o.v.0.1.0.e.0.0.sf10 000:0,1",
+		// … not consulted: authenticated records at the canonical name govern (self-signed server, DANE-EE / DANE-TA),
+		// the initial name's failure / mismatching RRset is irrelevant
+		"C05 hist 0010.20.10.10 0a:1.1.o.u.0.1.1.e.0.0.sf10 0a:3.1.o.u.0.1.1.t.0.0.sm10 000:0,1",
+		// mismatching / unusable records at the canonical name, matching ones at the initial name: refused / TLS only
+		"C05 hist 0010.-.10.10 0a:1.1.o.u.0.1.1.m.0.0.se10 0a:3.1.s.v.0.1.1.u.0.0.se10 000:0,1",
+		// alias into an unsigned zone ("insecure CNAME"): the initial name is the base domain — matching, mismatching
+		"C05 hist 0010.20.10.10 0a:1.1.o.u.0.0.0.n.0.0.se10 0a:3.1.o.v.0.0.1.e.0.0.sm10 000:0,1",
+		// unsigned CNAME RRset: DANE does not apply / the CNAME-type query fails: deferred
+		"C05 hist 0010.-.10.10 0a:1.1.o.v.0.1.1.m.0.0.im10 0a:3.1.o.v.0.1.1.n.0.0.in01 000:0,1",
+		"C05 hist 0010.-.10.10 0a:1.1.o.v.0.0.1.n.0.0.sn01 0a:3.1.o.v.0.0.0.n.0.0.se10 000:0,1",
 	}
 }
 
@@ -1158,11 +1314,27 @@ func c05Factors(h c05Hist) []string {
 		"up=" + c05b(m.up), fmt.Sprintf("starttls=%c", m.starttls), fmt.Sprintf("cert=%c", m.cert), "listed=" + c05b(m.stsMatch),
 		"aAD=" + c05b(m.aAD), "tlsaAD=" + c05b(m.tlsaAD), fmt.Sprintf("tlsa=%c", m.tlsa), "reqtls=" + c05b(m.reqtls),
 		"msg=" + c05b(msg.requireTLS) + c05b(msg.tlsNo) + strconv.Itoa(msg.quarantine),
+		"alias=" + c05AliasTag(m), c05AliasFactor(m, "tlsaI", string(m.tlsaI)), c05AliasFactor(m, "tlsaIAD", c05b(m.tlsaIAD)),
+		c05AliasFactor(m, "cnameErr", c05b(m.cnameErr)),
 	}
 }
 
+func c05AliasTag(m c05MX) string {
+	if m.alias == 0 {
+		return "-"
+	}
+	return string(m.alias)
+}
+
+func c05AliasFactor(m c05MX, name, val string) string {
+	if m.alias == 0 {
+		return name + "=-"
+	}
+	return name + "=" + val
+}
+
 // number of values of each factor, in the order of c05Factors
-var c05FactorSizes = []int{2, 2, 2, 10, 2, 2, 3, 2, 4, 2, 2, 4, 3, 2, 2, 2, 6, 2, 12}
+var c05FactorSizes = []int{2, 2, 2, 10, 2, 2, 3, 2, 4, 2, 2, 4, 3, 2, 2, 2, 6, 2, 12, 3, 7, 3, 3}
 
 type c05Pairwise struct{ seen map[string]bool }
 
@@ -1236,6 +1408,20 @@ func c05OneCase(t *testing.T, out *vh.Out, pki *c05PKI, h c05Hist, rng *vh.Rng, 
 	}
 }
 
+// which TLSA base domain decides for an aliased MX (distribution only)
+func c05BaseDomain(m c05MX) string {
+	switch {
+	case m.alias == 'i':
+		return "unsigned-cname"
+	case !m.aAD:
+		return "insecure-target.initial-name"
+	}
+	if k := m.tlsa; k == 'f' || (k != 'n' && m.tlsaAD) {
+		return "canonical-name"
+	}
+	return "secure.fallback-to-initial-name"
+}
+
 func c05ErrKind(e string) string {
 	for _, k := range [][2]string{
 		{"quarantined", "quarantined"},
@@ -1283,6 +1469,9 @@ func c05DeliveryStats(out *vh.Out, h c05Hist, events []c05Event) {
 		if f.dane && c05Discovery(mx) != "none" {
 			out.Stat("c05.deliver.dane-in-force.discovery=" + c05Discovery(mx))
 		}
+		if f.dane && mx.alias != 0 {
+			out.Stat("c05.deliver.dane-in-force.aliased-mx." + c05BaseDomain(mx))
+		}
 		if f.mtasts {
 			out.Stat(fmt.Sprintf("c05.deliver.mtasts-in-force.sts=%c.listed=%s", h.doms[di].sts, c05b(mx.stsMatch)))
 		}
@@ -1306,6 +1495,13 @@ func c05DeliveryStats(out *vh.Out, h c05Hist, events []c05Event) {
 					out.Stat("c05.deliver.new-conn-after-earlier-delivery." + why)
 					break
 				}
+			}
+		}
+	}
+	for _, d := range h.doms {
+		for _, mx := range d.mxs {
+			if mx.alias != 0 && h.cfg.dane {
+				out.Stat(fmt.Sprintf("c05.alias.%s.discovery=%s", c05BaseDomain(mx), c05Discovery(mx)))
 			}
 		}
 	}
